@@ -9,6 +9,11 @@
     `harness/props/c19.py::parse_rules`: depth-directed, checks that both branches name the same feature and threshold).
   * `rulesOf`: the rule tree a well-formed tree denotes; `parseAt_printLines`: the reader recovers it.
   * `evalRules`; `evalRules_rulesOf`: applying the rules to a point is `Tree.route`.
+  * `Line.read` / `read_render`: a printed string determines its line (text level); `readLines`, `parseText`.
+  * `splitLines` / `textOf` / `splitLines_textOf`: one text ↔ its lines; `parseString`.
+  * `colOfTree`, `readThrTree`, `readBack_of_distinct`: label readers derived from distinctness.
+  * `wellFormed_init`, `wellFormed_addChild`: `WellFormed` holds for every tree `fit` builds.
+  * `Example`: a concrete 3-node tree over `Rat` satisfying every hypothesis.
 -/
 import GemVerif.Model.Kauri
 import Std.Data.String.ToInt
@@ -698,6 +703,17 @@ theorem readBack : ReadBack tree sh nm colOf readThr := by
 theorem noBlank : ThrNoBlank tree sh := by
   intro n hn hne v hv
   obtain rfl := internal_zero hn hne
+  rw [thr_eq] at hv
+  have hv' : v = 1/2 := by simpa using hv.symm
+  subst hv'
+  simp [sh]
+
+theorem noNewline : NoNewline tree sh nm := by
+  intro n hn hne
+  obtain rfl := internal_zero hn hne
+  have hf : featAt tree 0 = 2 := by simp [featAt, feat_eq]
+  refine ⟨by rw [hf]; decide, ?_⟩
+  intro v hv
   rw [thr_eq] at hv
   have hv' : v = 1/2 := by simpa using hv.symm
   subst hv'
